@@ -276,8 +276,11 @@ def run(ctx):
     if rc != 0:
         ctx.fail('gen:compile', 'generated traces do not compile: ' + err[-800:], no_input=True)
         return
-    for f in ('C04_a.v', 'C04_b.v', 'C04_c.v'):
-        ctx.prove('theories/Props/' + f)
+    from concurrent.futures import ThreadPoolExecutor
+    files = ['theories/Props/C04_a.v', 'theories/Props/C04_b.v', 'theories/Props/C04_c.v', 'theories/Props/C04_d.v']
+    with ThreadPoolExecutor(4) as ex:          # independent files (none imports another): compiled side by side
+        list(ex.map(ctx.prove, files))
+    ctx.obligations.sort(key=lambda o: (o.file, 0))
     with ctx.timed('correspond'):
         sym_num(ctx, g, MOD, ctx.n(12, 200))
     with ctx.timed('oracle'):
@@ -343,11 +346,10 @@ TOL = 1e-6
 
 # sub-check keys under which every kind of failure (exception of any type, NaN, wrong value) has ONE known root cause, the
 # matrix logarithm the twist classes are built on (base.trlog / trlog2, property C03): there the outcome is not part of the key
-# /repo 84bd1d7 (trlog) and c4462a7 (closed-form trlog2) repaired the eight former cells.  ONE residue of 84bd1d7 is left: a rotation
-# block that differs from I only by a SYMMETRIC rounding residue just above iseye's 10 eps (e.g. the float product X * inv(X)) reaches
-# trlog's general branch with vex(R - R') == 0 exactly and divides 0/0.  Only that cell keeps an outcome-independent key.
-LOG_HAZARD = ('conv:SE3->Twist3->SE3:rounding-identity', 'tree:Twist3:rounding-identity')
-# the float product trexp(S) @ trexp(-S) for the half turn S found by the multi-valued oracle (VERIF_SEED=1): not iseye, exactly symmetric
+# /repo 84bd1d7, c4462a7 and 5f912b1 repaired every cell where the matrix logarithm under the twist classes used to break; no cell is
+# exempt from the outcome-specific keys any more.
+LOG_HAZARD = ()
+# regression case (the residue that 5f912b1 repaired): the float product trexp(S) @ trexp(-S) for a half turn S -- not iseye, exactly symmetric
 ROUNDING_IDENTITY = ['0x1.ffffffffffff3p-1', '-0x1.3e9cd73ddeee8p-53', '0x1.d36031c8fef82p-52', '0x1.3700000000000p-52',
                      '-0x1.3e9cd73ddeee8p-53', '0x1.ffffffffffff2p-1', '-0x1.9db59251a80fep-52', '-0x1.8000000000000p-53',
                      '0x1.d36031c8fef82p-52', '-0x1.9db59251a80fep-52', '0x1.fffffffffffffp-1', '-0x1.4000000000000p-53',
@@ -474,13 +476,8 @@ def rot_angle(T):
 
 
 def log_hazard(tree, Ts):
-    """the one cell where the matrix logarithm under Twist3 is still known to break (see LOG_HAZARD): an intermediate result that is
-    the identity up to rounding (reference rotation angle < 1e-12, e.g. X * inv(X)).  Decided from the NumPy reference values only."""
-    if Ts[0].shape[0] != 4:
-        return ''
-    acc = []
-    ref_nodes(tree, Ts, acc)
-    return ':rounding-identity' if any(rot_angle(T) < 1e-12 for T in acc) else ''
+    """formerly classified the cells where trlog / trlog2 were known to break; all repaired (84bd1d7, c4462a7, 5f912b1)"""
+    return ''
 
 
 def tree_leaves(t):
@@ -545,11 +542,17 @@ def rot_kind(rng):
 
 def oracle_trees3(o, rng, ntrees, depth):
     ctx = o.ctx
-    # directed: the recorded rounding residue of the identity (deterministic reproduction of the residual trlog cell)
+    # directed regression case: the recorded symmetric rounding residue of the identity (trlog gave 0/0 = NaN before 5f912b1),
+    # and X * inv(X) for half turns X, whose float product is such a residue
     M = np.array([float.fromhex(h) for h in ROUNDING_IDENTITY]).reshape(4, 4)
-    Y = o.guard('conv:SE3->Twist3->SE3:rounding-identity', lambda: SE3(M, check=False).Twist3().SE3().A, M)
+    Y = o.guard('regress:trlog:symmetric-residue', lambda: SE3(M, check=False).Twist3().SE3().A, M)
     if Y is not None:
-        o.cmp('conv:SE3->Twist3->SE3:rounding-identity', Y, M, M)
+        o.cmp('regress:trlog:symmetric-residue', Y, M, M)
+    for _ in range(ctx.n(40, 2000)):
+        T = _T(rot_from_axis_angle(rand_unit(rng), math.pi), rng.normal(size=3))
+        Y = o.guard('regress:Twist3:X*inv(X)', lambda: (lambda tw: (tw * tw.inv()).SE3().A)(SE3(T, check=False).Twist3()), T)
+        if Y is not None:
+            o.cmp('regress:Twist3:X*inv(X)', Y, np.eye(4), T, 10.0)
     for it in range(ntrees):
         nleaf = int(rng.integers(1, 4))
         kinds, Rs, ts = [], [], []
@@ -818,6 +821,9 @@ def oracle_constructors(o, rng, n):
         thw = float(rng.uniform(1e-3, math.pi)) if rng.random() < 0.6 else float(rng.choice([1e-9, math.pi - 1e-9, math.pi, 1e-12]))
         v = rand_unit(rng)
         each('EulerVec', rot_from_axis_angle(v, thw), v * thw, lambda cls: cls.EulerVec(v * thw))
+        each('EulerVec:zero', np.eye(3), np.zeros(3), lambda cls: cls.EulerVec(np.zeros(3)))
+        vb = v * 5e-15       # axis length between 10 eps and 100 eps: normalisable since /repo d900630 (every class raised TypeError before)
+        each('AngVec:tiny-axis', rot_from_axis_angle(v, thw), np.r_[thw, vb], lambda cls: cls.AngVec(thw, vb))
         # OA
         while True:
             ov, av = rng.normal(size=3) * log_uniform(rng, 1e-2, 1e2), rng.normal(size=3) * log_uniform(rng, 1e-2, 1e2)
@@ -902,7 +908,7 @@ def oracle_multi(o, rng, n):
             o.elems('multi:SE2.SE3:hom', lambda: (se2 * se2.inv() * se2).SE3(z), [lift(T) for T in T2s], lambda x: x.A, inp2, 10.0)
             o.elems('multi:SE2.SE3:hom', lambda: se2.SE3(z) * se2.SE3(0.0), [lift(T) @ (lift(T) - np.diag([0, 0, 0, 0]) + np.array([[0, 0, 0, 0], [0, 0, 0, 0], [0, 0, 0, -z], [0, 0, 0, 0]])) for T in T2s], lambda x: x.A, inp2, 100.0)
             tw2 = o.elems('multi:SE2.Twist2()', lambda: se2.Twist2(), T2s, lambda x: x.SE2().A, inp2, 10.0)
-            o.elems('multi:Twist2(SE2)', lambda: Twist2(se2), T2s, lambda x: x.SE2().A, inp2, 10.0)
+            o.elems('multi:Twist2(SE2_N)', lambda: Twist2(se2), T2s, lambda x: x.SE2().A, inp2, 10.0)
             if tw2 is not None:
                 o.elems('multi:Twist2.SE2', lambda: tw2.SE2(), T2s, lambda x: x.A, inp2, 10.0)
                 o.elems('multi:Twist2.exp', lambda: tw2.exp(), T2s, lambda x: x.A, inp2, 10.0)
@@ -916,7 +922,7 @@ def oracle_multi(o, rng, n):
                 o.elems('multi:UQ*UQ.inv*UQ', lambda: uq * uq.inv() * uq, R3s, lambda x: x.R, inp3)
         if se3 is not None:
             tw = o.elems('multi:SE3.Twist3()', lambda: se3.Twist3(), T3s, lambda x: x.SE3().A, inp3, 10.0)
-            o.elems('multi:Twist3(SE3)', lambda: Twist3(se3), T3s, lambda x: x.SE3().A, inp3, 10.0)
+            o.elems('multi:Twist3(SE3_N)', lambda: Twist3(se3), T3s, lambda x: x.SE3().A, inp3, 10.0)
             if tw is not None:
                 o.elems('multi:Twist3.SE3', lambda: tw.SE3(), T3s, lambda x: x.A, inp3, 10.0)
                 o.elems('multi:Twist3.exp', lambda: tw.exp(), T3s, lambda x: x.A, inp3, 10.0)
